@@ -465,6 +465,20 @@ func (na *NilAnalysis) classify(ff *FuncFacts, e ast.Expr, at ast.Node, depth in
 			return MaybeNil
 		}
 		return na.classifyObjAt(ff, o, at, depth)
+	case *ast.TypeAssertExpr:
+		// pool.Get().(*T) on a pool that only ever holds non-nil *T
+		if c, ok := ast.Unparen(x.X).(*ast.CallExpr); ok && x.Type != nil {
+			if el := na.P.PoolElem(info, c); el != nil && types.Identical(el, info.TypeOf(x.Type)) {
+				return NonNil
+			}
+		}
+	case *ast.IndexExpr:
+		// element of a slice field that is only ever grown with non-nil elements (r.routes[i])
+		if sel, ok := ast.Unparen(x.X).(*ast.SelectorExpr); ok {
+			if f := FieldSel(info, sel); f != nil && na.fieldSliceNonNil(f) {
+				return NonNil
+			}
+		}
 	case *ast.SelectorExpr:
 		// qualified identifier of another package's variable (routers.ErrPathNotFound)
 		if v, ok := info.Uses[x.Sel].(*types.Var); ok && !v.IsField() && v.Pkg() != nil && v.Parent() == v.Pkg().Scope() {
@@ -794,6 +808,177 @@ func (na *NilAnalysis) globalNonNil(v *types.Var) bool {
 		return true
 	}
 	return false
+}
+
+// fieldSliceNonNil: every assignment to the slice field f in its package is `x.f = append(x.f, e...)`
+// with elements that are provably non-nil (address-of, composite literal, never-nil call).
+func (na *NilAnalysis) fieldSliceNonNil(f *types.Var) bool {
+	if f.Pkg() == nil || !InRepo(f.Pkg()) {
+		return false
+	}
+	if _, ok := f.Type().Underlying().(*types.Slice); !ok {
+		return false
+	}
+	key := "fs:" + f.Pkg().Path() + "." + f.Name() + fmt.Sprint(f.Pos())
+	if v, ok := na.nowe[key]; ok {
+		return v
+	}
+	na.nowe[key] = false
+	pk := na.P.Pkgs[f.Pkg().Path()]
+	if pk == nil {
+		return false
+	}
+	info := pk.TypesInfo
+	ok := true
+	n := 0
+	for _, file := range pk.Syntax {
+		for _, d := range file.Decls {
+			fd, isF := d.(*ast.FuncDecl)
+			if !isF || fd.Body == nil {
+				continue
+			}
+			var ff *FuncFacts
+			ast.Inspect(fd.Body, func(nd ast.Node) bool {
+				switch x := nd.(type) {
+				case *ast.AssignStmt:
+					for i, l := range x.Lhs {
+						sel, isSel := ast.Unparen(l).(*ast.SelectorExpr)
+						if !isSel || FieldSel(info, sel) != f {
+							continue
+						}
+						n++
+						if i >= len(x.Rhs) {
+							ok = false
+							continue
+						}
+						c, isCall := ast.Unparen(x.Rhs[i]).(*ast.CallExpr)
+						if !isCall || !IsBuiltin(info, c, "append") || len(c.Args) < 2 || c.Ellipsis.IsValid() {
+							ok = false
+							continue
+						}
+						if ff == nil {
+							ff = NewFuncFacts(na.P, info, fd)
+						}
+						for _, e := range c.Args[1:] {
+							if na.Classify(ff, e, x) != NonNil {
+								ok = false
+							}
+						}
+					}
+				case *ast.KeyValueExpr:
+					// composite literal initialising the field
+					if id, isID := x.Key.(*ast.Ident); isID && info.ObjectOf(id) == types.Object(f) {
+						ok = false
+					}
+				case *ast.UnaryExpr:
+					if x.Op == token.AND {
+						if sel, isSel := ast.Unparen(x.X).(*ast.SelectorExpr); isSel && FieldSel(info, sel) == f {
+							ok = false
+						}
+					}
+				}
+				return true
+			})
+		}
+	}
+	na.nowe[key] = ok && n > 0
+	return ok && n > 0
+}
+
+// PoolElem: call is `P.Get()` on a package-level sync.Pool P whose New function returns the address
+// of a composite literal (or new(T)) and into which nothing else than values of that pointer type
+// is Put (never a nil literal): returns the pointer type every Get yields, nil otherwise.
+func (p *Prog) PoolElem(info *types.Info, call *ast.CallExpr) types.Type {
+	sel, ok := call.Fun.(*ast.SelectorExpr)
+	if !ok || sel.Sel.Name != "Get" || len(call.Args) != 0 {
+		return nil
+	}
+	callee := CalleeOf(info, call)
+	if callee == nil || callee.Pkg() == nil || callee.Pkg().Path() != "sync" {
+		return nil
+	}
+	id, ok := ast.Unparen(sel.X).(*ast.Ident)
+	if !ok {
+		return nil
+	}
+	gv, ok := info.ObjectOf(id).(*types.Var)
+	if !ok {
+		return nil
+	}
+	init := p.GlobalInit(gv)
+	if init == nil {
+		return nil
+	}
+	pk := p.Pkgs[gv.Pkg().Path()]
+	if pk == nil {
+		return nil
+	}
+	pinfo := pk.TypesInfo
+	cl, ok := ast.Unparen(init).(*ast.CompositeLit)
+	if !ok {
+		return nil
+	}
+	var elem types.Type
+	for _, e := range cl.Elts {
+		kv, ok := e.(*ast.KeyValueExpr)
+		if !ok || ExprStr(kv.Key) != "New" {
+			continue
+		}
+		fl, ok := ast.Unparen(kv.Value).(*ast.FuncLit)
+		if !ok {
+			return nil
+		}
+		good := true
+		forEachReturn(fl.Body, func(ret *ast.ReturnStmt) {
+			if len(ret.Results) != 1 {
+				good = false
+				return
+			}
+			r0 := ast.Unparen(ret.Results[0])
+			if u, ok := r0.(*ast.UnaryExpr); ok && u.Op == token.AND {
+				if _, isLit := ast.Unparen(u.X).(*ast.CompositeLit); isLit {
+					elem = pinfo.TypeOf(r0)
+					return
+				}
+			}
+			if c, ok := r0.(*ast.CallExpr); ok && IsBuiltin(pinfo, c, "new") {
+				elem = pinfo.TypeOf(r0)
+				return
+			}
+			good = false
+		})
+		if !good {
+			return nil
+		}
+	}
+	if elem == nil {
+		return nil
+	}
+	// every Put in the package
+	okPut := true
+	for _, file := range pk.Syntax {
+		ast.Inspect(file, func(n ast.Node) bool {
+			c, ok := n.(*ast.CallExpr)
+			if !ok || len(c.Args) != 1 {
+				return true
+			}
+			s2, ok := c.Fun.(*ast.SelectorExpr)
+			if !ok || s2.Sel.Name != "Put" {
+				return true
+			}
+			if pid, ok := ast.Unparen(s2.X).(*ast.Ident); !ok || pinfo.ObjectOf(pid) != types.Object(gv) {
+				return true
+			}
+			if IsNil(pinfo, c.Args[0]) || !types.Identical(pinfo.TypeOf(c.Args[0]), elem) {
+				okPut = false
+			}
+			return true
+		})
+	}
+	if !okPut {
+		return nil
+	}
+	return elem
 }
 
 // GlobalInit returns the initialiser of a package-level variable that is never assigned again (nor
